@@ -1386,6 +1386,7 @@ func (kmc *KeystoreManagerForPoC) GenerateNewPublicKey() (*pocec.PublicKey, uint
 	addrManager, found := kmc.managedKeystores[accountID]
 	if found {
 
+		var inChildNum, exChildNum uint32
 		err := db.Update(kmc.db, func(dbTransaction db.DBTransaction) error {
 			var err error
 			managedAddresses, err = addrManager.nextAddresses(dbTransaction, false, 1, kmc.params)
@@ -1396,18 +1397,15 @@ func (kmc *KeystoreManagerForPoC) GenerateNewPublicKey() (*pocec.PublicKey, uint
 					})
 				return err
 			}
-			return nil
+			// the branch counters as this transaction stores them: reading them back after the
+			// commit could fail and report an error for a key that is already issued
+			inChildNum, exChildNum, err = fetchChildNum(dbTransaction.FetchBucket(addrManager.storage))
+			return err
 		})
 		if err != nil {
 			return nil, 0, err
 		}
-
-		err = db.View(kmc.db, func(tx db.ReadTransaction) error {
-			return addrManager.updateManagedAddress(tx, managedAddresses)
-		})
-		if err != nil {
-			return nil, 0, err
-		}
+		addrManager.setManagedAddresses(managedAddresses, inChildNum, exChildNum)
 
 		for _, managedAddr := range managedAddresses {
 			var err error
